@@ -277,8 +277,11 @@ def _operand_desc(fn, op):
     return "const:%s" % c[1]
 
 
-def _bool_facts(fn, l, value, depth):
-    """facts implied by boolean local l having `value`"""
+def _bool_facts(fn, l, value, depth, path=None):
+    """facts implied by boolean local l having `value`.  With `path` (block -> position on the
+    CFG path being enumerated) a local assigned in several blocks takes its definition on that
+    path, so a flag computed by `match x { Some(q) => q == y, None => false }` yields the facts of
+    the arm actually taken instead of the (weaker) facts common to all arms."""
     from .core import norm_path
 
     if depth > 8 or l is None:
@@ -286,6 +289,13 @@ def _bool_facts(fn, l, value, depth):
     ds = [x for x in fn.defs().get(l, []) if not x[3]]
     live = fn.live_blocks()
     ds = [x for x in ds if x[0] in live]
+    if len(ds) > 1 and path is not None and l not in fn.mut_borrowed():
+        on = [x for x in ds if x[0] in path]
+        if on:
+            ds = [max(on, key=lambda x: (path[x[0]], 10 ** 6 if x[1] == "term" else x[1]))]
+            rv = ds[0][2]
+            if rv[0] == "use" and op_const(rv[1]) is not None:
+                return []  # a constant on this path: the switch was decided, nothing to learn
     if len(ds) == 1:
         rv = ds[0][2]
         k = rv[0]
@@ -294,12 +304,12 @@ def _bool_facts(fn, l, value, depth):
             args = tuple(arg_path_s(fn, call, i) for i in range(len(call.args)))
             return [("callbool", call.name, args, value, call)]
         if k == "un" and rv[1] == "Not":
-            return _bool_facts(fn, op_local(rv[2]), not value, depth + 1)
+            return _bool_facts(fn, op_local(rv[2]), not value, depth + 1, path)
         if k == "use":
             pl = op_place(rv[1])
             if pl is not None:
                 if not pl[1]:
-                    return _bool_facts(fn, pl[0], value, depth + 1)
+                    return _bool_facts(fn, pl[0], value, depth + 1, path)
                 return [("place", norm_path(fn.apath(pl)), value)]
             return []
         if k == "bin":
@@ -355,8 +365,8 @@ def _strip(fs):
     return out
 
 
-def edge_facts(fn, d, s, depth=0):
-    """facts implied by taking the edge d -> s where d ends in a switch"""
+def edge_facts(fn, d, s, depth=0, path=None):
+    """facts implied by taking the edge d -> s where d ends in a switch (`path`: see _bool_facts)"""
     from .core import norm_path
 
     info = fn.switch_info(d)
@@ -381,7 +391,7 @@ def edge_facts(fn, d, s, depth=0):
         vals = [v for v, tb in info["edges"].items() if tb == s]
         if len(vals) != 1:
             return []
-        return _bool_facts(fn, info["local"], vals[0], depth)
+        return _bool_facts(fn, info["local"], vals[0], depth, path)
     if info.get("kind") == "int":
         l = info["local"]
         vals = [v for v, tb in info["targets"] if tb == s]
